@@ -291,12 +291,32 @@ fn show(argv: &[Vec<u8>]) -> String { format!("{:?}", argv.iter().map(|w| String
 /// Ok(escaping_was_needed) or Err((clause, detail))
 fn check_patterns(pats: &[&str]) -> Result<bool, (&'static str, String)> {
   let text = crate::udev_utils::verif_build_service_text(pats);
+  check_unit_text(pats, &text)
+}
+
+/// the oracle proper, on a unit text wherever it comes from (the hooked build_service_text, or the file the real
+/// binary's add_systemd_service wrote in the end-to-end tier)
+fn check_unit_text(pats: &[&str], text: &str) -> Result<bool, (&'static str, String)> {
   let line = text.split('\n').find(|l| l.starts_with("ExecStart=")).unwrap_or("").to_string();
-  let argv = read_execstart(&text).map_err(|e| ("exec-line-invalid", format!("systemd would reject the line ({}): {}", e, line)))?;
+  let argv = read_execstart(text).map_err(|e| ("exec-line-invalid", format!("systemd would reject the line ({}): {}", e, truncate(&line, 600))))?;
   let exp = expected_argv(pats);
   if argv != exp {
+    // The statement fixes that every pattern comes back as `--exclude <pattern>`, byte for byte, and that the surrounding
+    // arguments stay intact.  It does not fix the ORDER of the --exclude pairs nor whether a pattern the user gave twice
+    // is written twice: any arrangement of well-formed pairs that carries exactly the given set of patterns is accepted
+    // (DESIGN 7.10); everything else is judged against the vector in the order given.
+    let frame = expected_argv(&[]);
+    let n = argv.len();
+    let structured = n >= frame.len() && (n - frame.len()) % 2 == 0 && argv[..6] == frame[..6] && argv[n - 2..] == frame[6..] && (6..n - 2).step_by(2).all(|i| argv[i] == b"--exclude");
+    if structured {
+      let mut got: Vec<&[u8]> = (7..n - 2).step_by(2).map(|i| argv[i].as_slice()).collect(); got.sort(); got.dedup();
+      let mut want: Vec<&[u8]> = pats.iter().map(|p| p.as_bytes()).collect(); want.sort(); want.dedup();
+      if got == want { return Ok(true); }
+    }
     let clause = if argv.len() == exp.len() && argv.iter().zip(exp.iter()).enumerate().all(|(i, (a, b))| a == b || (i >= 7 && i < 6 + 2 * pats.len() && (i - 6) % 2 == 1)) { "pattern-changed" } else { "argument-vector-damaged" };
-    return Err((clause, format!("read back {} expected {}; line: {}", show(&argv), show(&exp), line)));
+    let at = argv.iter().zip(exp.iter()).position(|(a, b)| a != b).unwrap_or(argv.len().min(exp.len()));
+    let one = |v: &[Vec<u8>]| v.get(at).map(|w| show(std::slice::from_ref(w))).unwrap_or_else(|| "<nothing>".into());
+    return Err((clause, format!("first difference at argument {}: read back {} expected {}; whole vector read back {} expected {}; line: {}", at, one(&argv), one(&exp), truncate(&show(&argv), 600), truncate(&show(&exp), 600), truncate(&line, 600))));
   }
   let naive = format!("--only-if-keyboard {} --dev-file", pats.iter().map(|p| format!("--exclude {}", p)).collect::<Vec<_>>().join(" "));
   Ok(!line.contains(&naive))
@@ -470,7 +490,23 @@ pub fn run(ctx: &Ctx) -> Outcome {
   samples.push((0..130).map(|i| format!("{}{} Footswitch", alpha[i % alpha.len()], i)).collect());
   let real = real_systemd_tier(ctx, &samples);
 
+  let inst = installer_tier(ctx, &alpha);
   let mut o = Outcome::new("exploration");
+  match &inst {
+    None => { o.cov("installer_end_to_end_tier", "unavailable"); }
+    Some(t) => {
+      o.cov("installer_end_to_end_tier", "ran");
+      o.cov("installer_invocations_of_the_real_binary", t.invocations);
+      o.cov("installer_patterns_through_the_real_binary", t.patterns);
+      total.evaluations += t.patterns; total.nontrivial += t.patterns;
+      if let Some(e) = &t.machinery { o.machinery_error = Some(format!("installer end-to-end tier: {}", e)); }
+      for (clause, detail, pats) in &t.fails {
+        let refs: Vec<&str> = pats.iter().map(|s| s.as_str()).collect();
+        let e = total.fails.entry((clause, format!("real binary; {}", class_of(&refs)))).or_insert((0, pats.clone(), detail.clone()));
+        e.0 += 1;
+      }
+    }
+  }
   match &real {
     None => { o.cov("installed_systemd_tier", "unavailable"); }
     Some(t) => {
@@ -495,7 +531,7 @@ pub fn run(ctx: &Ctx) -> Outcome {
   o.cov("long_patterns_and_long_lists", n_sizes);
   o.cov("template_fragment_patterns", n_frags);
   o.cov("exhaustive", true);
-  o.cov("rule", format!("(i) every Unicode scalar value except NUL as a one-character pattern and embedded as a<c>b; (ii) every string of length 1..={} over the {}-character syntax alphabet; (iii) every list of 1..=3 patterns over {} short patterns, and every list of 2..=4 entries over ten of them and the empty string with at least one empty and one non-empty entry (oracle for those: every non-empty pattern comes back in order as the word after an `--exclude`, surrounding arguments intact); (iv) every alphabet character repeated n times and lists of n patterns for n around every power of two up to 257; (v) 20 fragments of the unit template itself, alone, concatenated and paired; plus the empty list. Each input goes through the real build_service_text and the ExecStart line is read back by the reference reader; distinct_nontrivial = inputs (all distinct by construction) whose pattern text had to be changed by the escaper, i.e. the raw pattern does not appear verbatim in the line.", maxlen, alpha.len(), sub.len()));
+  o.cov("rule", format!("(i) every Unicode scalar value except NUL as a one-character pattern and embedded as a<c>b; (ii) every string of length 1..={} over the {}-character syntax alphabet; (iii) every list of 1..=3 patterns over {} short patterns, and every list of 2..=4 entries over ten of them and the empty string with at least one empty and one non-empty entry (oracle for those: every non-empty pattern comes back in order as the word after an `--exclude`, surrounding arguments intact); (iv) every alphabet character repeated n times and lists of n patterns for n around every power of two up to 257; (v) 20 fragments of the unit template itself, alone, concatenated and paired; plus the empty list. Each input goes through the real build_service_text and the ExecStart line is read back by the reference reader; (vi) end-to-end, when `unshare -m` is available: the real binary (guard off) runs `add_systemd_service --exclude=<p>...` in a private mount namespace and the unit FILE it writes is read back with the same oracle - every alphabet character alone and every pair, every Unicode scalar value (1000 patterns per invocation; quick: 4000), long lists in rotations of the alphabet, 23 template/option-like fragments; distinct_nontrivial = inputs (all distinct by construction) whose pattern text had to be changed by the escaper, i.e. the raw pattern does not appear verbatim in the line.", maxlen, alpha.len(), sub.len()));
   o.cov("samples", json!([
     {"patterns": ["*Mouse*"], "exec_start": crate::udev_utils::verif_build_service_text(&["*Mouse*"]).split('\n').find(|l| l.starts_with("ExecStart=")).unwrap_or("")},
     {"patterns": ["it's 100% $HOME"], "exec_start": crate::udev_utils::verif_build_service_text(&["it's 100% $HOME"]).split('\n').find(|l| l.starts_with("ExecStart=")).unwrap_or("")},
@@ -511,6 +547,50 @@ pub fn run(ctx: &Ctx) -> Outcome {
     o.violations.push(Violation { property: "C17".into(), clause: format!("{} ({})", clause, class), signature: None, description: detail.clone(), artefact: art, count: *count });
   }
   o
+}
+
+/// End-to-end tier (DESIGN 5.5): the real binary's `add_systemd_service --exclude=<p> ...` in a private mount namespace;
+/// the unit FILE it leaves in /etc/systemd/system is read back with the same oracle.  Reaches main.rs's collection of the
+/// --exclude values and write_systemd_service around build_service_text.
+pub struct InstallTier { pub invocations: u64, pub patterns: u64, pub fails: Vec<(&'static str, String, Vec<String>)>, pub machinery: Option<String> }
+
+pub fn installer_tier(ctx: &Ctx, alpha: &[char]) -> Option<InstallTier> {
+  use crate::e2e::*;
+  if !available() { return None; }
+  let q = ctx.tier == Tier::Quick;
+  let mut lists: Vec<Vec<String>> = vec![vec![]];
+  // every alphabet character alone (one invocation each), every pair (one invocation per first character)
+  for a in alpha { lists.push(vec![a.to_string()]); }
+  for a in alpha { lists.push(alpha.iter().map(|b| format!("{}{}", a, b)).collect()); }
+  // every Unicode scalar value except NUL as a one-character pattern, 1000 (quick: 4000) per invocation, in code-point order
+  let per = if q { 4000 } else { 1000 };
+  let mut cur: Vec<String> = vec![];
+  for u in 1u32..0x110000 { if let Some(c) = char::from_u32(u) { cur.push(c.to_string()); if cur.len() == per { lists.push(std::mem::take(&mut cur)); } } }
+  if !cur.is_empty() { lists.push(cur); }
+  // long lists in every rotation of the alphabet (line lengths around the wrap limits), repeated patterns, template fragments
+  for n in [1usize, 2, 3, 7, 8, 9, 63, 64, 65, 100, 128, 129, 200, 256, 257] {
+    for rot in (0..alpha.len()).step_by(if q { 5 } else { 1 }) { lists.push((0..n).map(|i| format!("{}{} Footswitch", alpha[(i + rot) % alpha.len()], i)).collect()); }
+    lists.push(std::iter::repeat("*Mouse*".to_string()).take(n).collect());
+  }
+  let frags = ["/%I", "%I", "--dev-file", "--dev-file /%I", "--exclude", "--exclude=x", "-x", "--", "--only-if-keyboard", "ExecStart=", "[Service]", "\n[Install]\nWantedBy=x", "%%", "$$", "a$$", "\\s", "x/%Iy", "=", "a=b", "a,b", "a b", " lead", "trail "];
+  for f in frags.iter() { lists.push(vec![f.to_string()]); }
+  lists.push(frags.iter().map(|s| s.to_string()).collect());
+  let cases: Vec<Case> = lists.iter().map(|l| Case { layout: LayoutArg::Default("caps-for-movement".into()), excludes: l.clone(), install: true }).collect();
+  let mut t = InstallTier { invocations: cases.len() as u64, patterns: lists.iter().map(|l| l.len() as u64).sum(), fails: vec![], machinery: None };
+  let obs = match run_cases(&cases, ctx.threads) { Ok(o) => o, Err(e) => { if e.starts_with("unavailable") { return None; } t.machinery = Some(e); return Some(t); } };
+  for (l, o) in lists.iter().zip(obs.iter()) {
+    let refs: Vec<&str> = l.iter().map(|s| s.as_str()).collect();
+    let unit = match &o.unit { Some(u) => u, None => {
+      // no unit at all: the installer stopped before writing it.  A crash is reported; anything else is this tier's set-up
+      if o.signal.is_some() || o.status == Some(101) { t.fails.push(("installer-crashes", format!("add_systemd_service with {} --exclude values died (status {:?}, signal {:?}): {}", l.len(), o.status, o.signal, truncate(&o.stderr, 400)), l.iter().take(8).cloned().collect())); }
+      else if t.machinery.is_none() { t.machinery = Some(format!("the installer wrote no unit file in the private namespace (status {:?}): {} {}", o.status, truncate(&o.stdout, 300), truncate(&o.stderr, 300))); }
+      continue; } };
+    let text = match std::str::from_utf8(unit) { Ok(s) => s.to_string(), Err(_) => { t.fails.push(("unit-file-not-utf8", "the unit file written by the installer is not valid UTF-8".into(), l.iter().take(8).cloned().collect())); continue; } };
+    if let Err((clause, detail)) = check_unit_text(&refs, &text) {
+      if !t.fails.iter().any(|f| f.0 == clause) || t.fails.len() < 3 { t.fails.push((clause, format!("unit file written by the real binary: {}", detail), l.iter().take(8).cloned().collect())); }
+    }
+  }
+  Some(t)
 }
 
 pub fn replay_artefact(v: &Value) -> i32 {
